@@ -1228,6 +1228,30 @@ def compact_family(rep, prefix, tcfg, what):
     hist_stage(rep, prefix + "-compact-family", ["nested-run"], "nested", "NestedTrace.tla", tcfg, files, "full", what)
 
 
+def big_slab_family(rep, prefix, tcfg, what):
+    """Scripted family at large slab sizes (8 KiB, 32 KiB): several hundred small inlined children in ONE slab (the shared
+    inlined-extra-data section then has several hundred entries: map extra data is never de-duplicated), commit, reload, mutate one."""
+    for T in (8192, 32768):
+        hists = []
+        for kind in ("M", "A"):
+            for n in (250, 300):
+                h = [["root", 1, "A"]]
+                for c in range(n):
+                    h.append(["n.appc", 1, 2 + c, kind, 0])
+                h += [["commit", "det", 2, 0], ["crash"], ["n.get", 1, n - 1, n + 1]]
+                h.append(["n.mset", n + 1, 1, 5, 1, 12, 0, False, 0] if kind == "M" else ["n.app", n + 1, 1, 12, 0])
+                h.append(["commit", "nondet", 2, 0])
+                hists.append(h)
+        f = os.path.join(vlib.scratch(), "%s-bigslab-%d.ndjson" % (prefix, T))
+        with open(f, "w") as fh:
+            fh.write(json.dumps({"cfg": {"T": T}}) + "\n")
+            for h in hists:
+                fh.write(json.dumps(h) + "\n")
+        base = len(rep.distinct)
+        rep.distinct.update(range(base, base + len(hists)))
+        hist_stage(rep, "%s-bigslab-%d" % (prefix, T), ["nested-run", "-tail", "4"], "nested", "NestedTrace.tla", tcfg, [f], "tail", what)
+
+
 def nested_stages(rep, prefix, tcfg, what):
     quick = rep.tier == "quick"
     plans = [(256, "{12, 60, 110}", 200 if quick else 1500, 100 if quick else 200, 6, 6),
@@ -1808,6 +1832,7 @@ def check_C06(rep):
     persist_stages(rep, "c06", "C06", "reported slab size differs from the bytes written")
     map_collide_stage(rep, "MapTrace_C06.cfg", "map size bookkeeping is wrong", "c06", 255, 3, (1, 60) if quick else (1, 4))
     nested_stages(rep, "c06", "NestedTrace_C06.cfg", "reported slab size differs from the bytes written")
+    big_slab_family(rep, "c06", "NestedTrace_C06.cfg", "reported slab size differs from the bytes written (hundreds of inlined children in one slab)")
     # bulk-built containers: every size stream over edge sizes, then bulk build; the result's bookkeeping must agree too
     maxel = 6 if quick else 7
     files, n, total = model_histories(rep, "MC_Array.tla", "MC_Array.cfg",
